@@ -970,7 +970,7 @@ def unit_bpki(ctx):
     bits = ctx.params.get("bits", 1)
     kinds = [("bpkiPrivkey", k) for k in KEYLENS] + [("bpkiShare", k) for k in (17, 25, 33)]
     pwlens = (0, 1, 3, 8, 31, 32, 33, 63, 64) if q else tuple(range(65))
-    iters = (10000, 10001, 12345, 32767)
+    iters = (10000, 10001, 12345, 32767, 32768, 40000)          # 32767 -> 32768: the DER INTEGER of the count grows to 3 octets
     scen = []
     # (a) roundtrip + wrong passwords over password lengths, iteration counts, salts
     for fnb, klen in kinds:
